@@ -15,6 +15,7 @@ import (
 	"reflect"
 	"runtime/debug"
 	"strings"
+	"time"
 
 	"github.com/vimeo/dials"
 )
@@ -330,7 +331,56 @@ func runGraphCase(c gCase) (mis []string) {
 		return
 	}
 	mis = append(mis, gJudge("Config+View", root, v.Nodes[0])...)
+	// the graph as a source's value, stacked at Config time and re-stacked when the source reports it again
+	ctx, cancel := context.WithCancel(context.Background())
+	defer cancel()
+	src := &gSrc{root: root}
+	d2, err := dials.Config(ctx, &GRoot{}, src)
+	if err != nil {
+		mis = append(mis, "Config with the graph as a source value failed: "+err.Error())
+		return
+	}
+	v1 := d2.View()
+	if len(v1.Nodes) != 1 {
+		mis = append(mis, "source value: the view lost the graph")
+		return
+	}
+	mis = append(mis, gJudge("source value", root, v1.Nodes[0])...)
+	rctx, rcancel := context.WithTimeout(ctx, 20*time.Second)
+	defer rcancel()
+	if err := src.wa.BlockingReportNewValue(rctx, src.value()); err != nil {
+		mis = append(mis, "re-reporting the graph failed: "+err.Error())
+		return
+	}
+	v2 := d2.View()
+	if v2 == v1 || len(v2.Nodes) != 1 {
+		mis = append(mis, "re-stacking: no new version / the view lost the graph")
+		return
+	}
+	mis = append(mis, gJudge("re-stacked source value", root, v2.Nodes[0])...)
+	mis = append(mis, gJudge("successive versions", v1.Nodes[0], v2.Nodes[0])...)
 	return mis
+}
+
+// gSrc hands the graph to dials as its value (a watching source, so that it can report it again)
+type gSrc struct {
+	root *GNode
+	typ  *dials.Type
+	wa   dials.WatchArgs
+}
+
+func (g *gSrc) value() reflect.Value {
+	out := reflect.New(g.typ.Type()).Elem()
+	out.FieldByName("Nodes").Set(reflect.ValueOf([]*GNode{g.root}))
+	return out
+}
+func (g *gSrc) Value(_ context.Context, t *dials.Type) (reflect.Value, error) {
+	g.typ = t
+	return g.value(), nil
+}
+func (g *gSrc) Watch(_ context.Context, _ *dials.Type, wa dials.WatchArgs) error {
+	g.wa = wa
+	return nil
 }
 
 func graphMain(args []string) {
